@@ -1,6 +1,33 @@
 """Differencing oracle: Richardson-extrapolated central differences with a conclusiveness test."""
 
+import os
+
 import numpy as np
+
+# Purity probe: the differenced function is evaluated at the base point before and after the differencing sweep; a
+# value that changed (beyond round-off) means the code under test answers from stale state (a memo keyed on part of
+# its arguments, an aliased buffer). Entries are (site, magnitude, detail); harness.runner.run_case turns them into
+# failures of the sub-check 'repeated_evaluation_same_arguments'.
+IMPURE = []
+
+
+def _site(f):
+    c = getattr(f, "__code__", None)
+    return f"{os.path.basename(c.co_filename)}:{c.co_firstlineno}" if c is not None else "function"
+
+
+def _probe(f, before, after):
+    try:
+        a, b = np.asarray(before, dtype=float), np.asarray(after, dtype=float)
+        if a.shape != b.shape:
+            IMPURE.append((_site(f), None, f"shape {a.shape} then {b.shape}"))
+            return
+        if a.size and np.all(np.isfinite(a)) and np.all(np.isfinite(b)):
+            d = float(np.max(np.abs(a - b)))
+            if d > 1e-10 * (1.0 + float(np.max(np.abs(a)))):
+                IMPURE.append((_site(f), d, f"same arguments, values differ by {d:.3e} after the function was evaluated elsewhere"))
+    except Exception:  # noqa - the probe must never disturb a check
+        pass
 
 
 def _cd(f, x, i, h):
@@ -21,6 +48,7 @@ def jacobian(f, x, h=1e-3, levels=True):
     x = np.asarray(x, dtype=float)
     hh = np.broadcast_to(np.asarray(h, dtype=float), x.shape).reshape(-1) if np.ndim(h) else None
     cols1, cols2 = [], []
+    before = np.array(f(x.copy()), dtype=float, copy=True) if x.size else None
     for i in range(x.size):
         hi = float(hh[i]) if hh is not None else float(h)
         d1 = _cd(f, x, i, hi)
@@ -36,6 +64,7 @@ def jacobian(f, x, h=1e-3, levels=True):
     if x.size == 0:
         f0 = np.asarray(f(x), dtype=float)
         return np.zeros(f0.shape + x.shape), 0.0
+    _probe(f, before, f(x.copy()))
     J1 = np.stack(cols1, axis=-1)
     J2 = np.stack(cols2, axis=-1)
     dis = float(np.max(np.abs(J1 - J2))) if J1.size else 0.0
@@ -48,7 +77,9 @@ def directional(f, eps_h=1e-3):
     def cd(h):
         return (np.asarray(f(h), dtype=float) - np.asarray(f(-h), dtype=float)) / (2 * h)
 
+    before = np.array(f(0.0), dtype=float, copy=True)
     d1, d2, d3 = cd(eps_h), cd(eps_h / 2), cd(eps_h / 4)
+    _probe(f, before, f(0.0))
     r1 = (4 * d2 - d1) / 3
     r2 = (4 * d3 - d2) / 3
     dis = float(np.max(np.abs(r1 - r2))) if np.size(r1) else 0.0
